@@ -287,28 +287,15 @@ def monitor_inputs(rng, n_per_stream, tier):
     return jobs
 
 
-# kinds whose cost is quadratic in the formatter get a lower top depth so that the 5 s watchdog is
-# never close (generic: 2.6 s at 2000, tuple-pattern: 4 s at 2000 on this machine)
-DEPTH_CAP = {'generic': 1000, 'tuple-pattern': 700, 'match': 1000}
-
-
 def nesting_inputs(tier):
-    depths = [10, 100, 400, 1000] if tier == 'quick' else [10, 20, 50, 100, 200, 400, 800, 1000, 1500, 2000]
-    if tier == 'quick':
-        depths = depths + [2000]
+    """22 nesting shapes; beyond the parser's nesting limit (200) they must be rejected with a diagnostic,
+    below it they must go through every stage."""
+    depths = [10, 100, 190, 400, 2000] if tier == 'quick' else [10, 20, 50, 100, 150, 190, 199, 200, 201, 250, 400, 800, 1000, 1500, 2000, 5000]
     jobs = []
     for k in texts.NEST_KINDS:
         for d in depths:
-            d2 = min(d, DEPTH_CAP.get(k, d))
-            if k == 'ifelse':
-                d2 = min(d, 30)
-            jobs.append(('nesting:%s:%d' % (k, d2), {'Main': texts.deep_nesting(k, d2)}))
-    seen, out = set(), []
-    for j in jobs:
-        if j[0] not in seen:
-            seen.add(j[0])
-            out.append(j)
-    return out
+            jobs.append(('nesting:%s:%d' % (k, d), {'Main': texts.deep_nesting(k, d)}))
+    return jobs
 
 
 def run_monitor(jobs, timeout=1500):
@@ -327,14 +314,10 @@ def run_monitor(jobs, timeout=1500):
 
 
 def classify(stream, v):
-    """known-finding class id of a monitor failure, or None"""
-    if v['outcome'] == 'abort' and stream.startswith('nesting:') and v.get('stage') in ('parse', 'format', 'check', 'compile', ''):
-        return 'C05-parser-recursion-depth'
-    if v['outcome'] == 'hang' and stream.startswith('nesting:ifelse'):
-        return 'C05-nested-ifelse-format-exponential'
-    if v['outcome'] == 'panic' and any('typing_context' in p[1] or "called `Option::unwrap()` on a `None` value" in p[1] for p in v.get('panics', [])) \
-            and all(p[0] in ('check', 'compile') for p in v.get('panics', [])):
-        return 'C05-checker-unbound-tparam-panic'
+    """Known-finding class id of a monitor failure, or None.  No class of C05 is open at present: the four
+    findings of this check (empty doc comment, unbound type parameter in the checker, exponential if/else
+    formatting, unbounded parser recursion) are repaired; their witnesses are in corpus/C05 and run first, and
+    every panic, hang or abort is a violation."""
     return None
 
 
